@@ -25,6 +25,13 @@ type refRev struct {
 	cleaned bool // physically removed by a clean-up (only matters for the clean-up count)
 }
 
+func (e *refRev) String() string {
+	if e == nil {
+		return "none"
+	}
+	return fmt.Sprintf("ts=%d ttl=%d (expires %v)", e.ts.Unix(), e.ttl, e.exp.UTC().Format(time.RFC3339))
+}
+
 func runRevCache(r *core.Run) { core.Bubble(r, func(t *testing.T) { runRev(r) }) }
 
 func revString(x *path_mgmt.RevInfo) string {
@@ -68,7 +75,7 @@ func runRev(r *core.Run) {
 			if ref[k] == nil {
 				sig = "get-never-accepted"
 			}
-			r.Fail("c31-get", sig, "%s: Get(%v) at %v returned %s; the reference holds no live revocation for that interface (last accepted: %+v)",
+			r.Fail("c31-get", sig, "%s: Get(%v) at %v returned %s; the reference holds no live revocation for that interface (last accepted: %v)",
 				why, keys[k], time.Now().UTC(), revString(got), ref[k])
 			return false
 		case e != nil && got == nil:
@@ -120,7 +127,7 @@ func runRev(r *core.Run) {
 				return
 			}
 			if ok != want {
-				r.Fail("c31-accept", "accept:"+class, "Insert(%s) at %v returned %v; reference: unexpired=%v, live stored revocation=%+v => accepted=%v",
+				r.Fail("c31-accept", "accept:"+class, "Insert(%s) at %v returned %v; reference: unexpired=%v, live stored revocation: %v => accepted=%v",
 					revString(rev), now.UTC(), ok, now.Before(exp), cur, want)
 				return
 			}
